@@ -6,12 +6,6 @@ OBLIGATIONS = [
          bounds="2 records x <= 2 payload bytes of every kind (long, short, entry, $82, absent), any CPU/segment/granularity/start, -f list <= 2",
          unwind=14, unwind_fn={"cf_load": 40, "cf_build": 8, "harness": 8, "ProcessFile": 7, "vf_fread": 8, "vf_fwrite": 14}, timeout=1700, mem_gb=28,
          assumes=["stdio replaced by the memory-file model", "option parsing not executed; filter statics set directly", "errno == 0 on entry (no stale I/O error)", "pbind copy buffer shrunk from 8192 to 16 bytes"]),
-    dict(name="plist_lines_r2", src="plist1.c", include=["plist.c", "toolutils.c"], units=["addrspace.c"], stubs=["fmt_off.c"], defs=["STRINGSIZE=16", "CF_R=1", "CF_L=4"],
-         functions=["plist.c:ProcessSingle", "toolutils.c:ReadRecordHeader", "toolutils.c:Granularity"],
-         bounds="2 data records (long and short form) x 0..4 payload bytes (whole address units, incl. empty records), any CPU/segment/granularity 1,2,4/start",
-         unwind=14, unwind_fn={"cf_load": 40, "cf_build": 8, "harness": 16, "ProcessSingle": 6, "vp_vfprintf": 48}, timeout=1200, mem_gb=16, object_bits=13,
-         assumes=["stdio replaced by the memory-file model; stdout through the printf monitor into an online checker (libc rendering of %X/%s trusted)",
-                  "message catalogue texts empty, family look-up always succeeds", "main() (option parsing, summary printing) not executed: totals checked in Sums[]"]),
     dict(name="plist_r1", tier="experimental", src="plist.c", include=["plist.c", "toolutils.c"], units=["addrspace.c"], stubs=["fmt_off.c"], defs=["STRINGSIZE=16", "CF_R=1", "CF_L=2"],
          functions=["plist.c:main", "plist.c:ProcessSingle", "toolutils.c:ReadRecordHeader", "toolutils.c:SkipRecord", "toolutils.c:Granularity"],
          bounds="1 record x <= 2 payload bytes (long, short, entry, absent), any CPU/segment/granularity/start",
@@ -19,5 +13,13 @@ OBLIGATIONS = [
          assumes=["stdio replaced by the memory-file model; stdout through the printf monitor (libc rendering of %X/%u/%s trusted)",
                   "initialisation (NLS, message catalogues) and option parsing cut; FindFamilyById returns known/unknown arbitrarily"]),
 ]
+for _k in range(4):
+    OBLIGATIONS.append(
+    dict(name="plist_lines_" + ["ll", "sl", "ls", "ss"][_k], src="plist1.c", include=["plist.c", "toolutils.c"], units=["addrspace.c", "bpemu.c"], stubs=["fmt_off.c"], defs=["STRINGSIZE=16", "CF_R=2", "CF_L=4", "RKINDS=%d" % _k], cuts={"toolutils.c": ["ReadRelocInfo", "DestroyRelocInfo"], "bpemu.c": ["FileSize"]},
+         functions=["plist.c:ProcessSingle", "toolutils.c:ReadRecordHeader", "toolutils.c:Granularity"],
+         bounds="2 data records (forms long/short fixed per obligation) x 0..4 payload bytes (whole address units, incl. empty records), any CPU/segment/granularity 1,2,4/start",
+         unwind=14, unwind_fn={"cf_load": 40, "cf_build": 8, "harness": 16, "ProcessSingle": 6, "vp_vfprintf": 48}, timeout=1200, mem_gb=16, object_bits=13,
+         assumes=["stdio replaced by the memory-file model; stdout through the printf monitor into an online checker (libc rendering of %X/%s trusted)",
+                  "message catalogue texts empty, family look-up always succeeds", "main() (option parsing, summary printing) not executed: totals checked in Sums[]"]))
 META = dict(outside=["more than one input file", "records longer than 3 bytes (length enters only the copy loop trip count)", "relocation-info records in plist"],
             assumptions=["malloc never fails"])
